@@ -92,6 +92,8 @@ type Env struct {
 	SyncMissing  map[uint64]bool                              // validators for which the account manager has no account (sync committee lookups by index)
 	inflight     atomic.Int64
 	activity     atomic.Int64
+	// SyncSubscribeFail makes the (fake) sync committee subscriber refuse.
+	SyncSubscribeFail atomic.Bool
 }
 
 const (
@@ -368,6 +370,9 @@ type fakeSyncSubscriber struct{ e *Env }
 
 func (f fakeSyncSubscriber) Subscribe(_ context.Context, end phase0.Epoch, _ []*apiv1.SyncCommitteeDuty) error {
 	f.e.rec(Event{Kind: "sync-subscribe", Epoch: uint64(end)})
+	if f.e.SyncSubscribeFail.Load() {
+		return errors.New("scripted sync committee subscription failure")
+	}
 	return nil
 }
 
